@@ -257,7 +257,7 @@ func stProjects(c *core.Ctx, cfgQuick string, thoroughBody string) ([]model.Proj
 	return ps, nil
 }
 
-const stThoroughCfg = "SPECIFICATION Spec\nCONSTANTS\n  MaxProps = 3\n  ValueIdx = {1, 2, 3, 5, 7, 8, 9, 10, 11, 13, 14}\n  AnnPerValue = 4\n  Contexts = {0, 1, 2}\nINVARIANTS OneNodePerElement Emit\nCHECK_DEADLOCK FALSE\n"
+const stThoroughCfg = "SPECIFICATION Spec\nCONSTANTS\n  MaxProps = 3\n  ValueIdx = {1, 2, 3, 5, 7, 8, 9, 10, 11, 13, 14, 15}\n  AnnPerValue = 4\n  Contexts = {0, 1, 2}\nINVARIANTS OneNodePerElement Emit\nCHECK_DEADLOCK FALSE\n"
 
 func runC04(c *core.Ctx) error {
 	ps, err := stProjects(c, "SchemaText_quick.cfg", stThoroughCfg)
